@@ -157,6 +157,35 @@ class ViewMap(dict):
         return None
 
 
+def pure_binding_arms(st):
+    """names bound by an if / elif / else whose arms consist only of `name = <expression without side effects>` statements (calls allowed only
+    to numpy / scipy functions and methods of local values that do not mutate: no in-place methods, no stores, no returns); None otherwise"""
+    names = set()
+
+    def arm(block):
+        for s_ in block:
+            if isinstance(s_, ast.If):
+                if not arm(s_.body) or not arm(s_.orelse):
+                    return False
+                continue
+            if not (isinstance(s_, ast.Assign) and len(s_.targets) == 1 and isinstance(s_.targets[0], ast.Name)):
+                return False
+            for c in ast.walk(s_.value):
+                if isinstance(c, ast.Call):
+                    f = U(c.func)
+                    last = f.split('.')[-1]
+                    if not (f.split('.')[0] in ('np', 'numpy', 'scipy', 'math') or f in ('softmax', 'logsumexp', 'float', 'int', 'len', 'abs', 'min', 'max', 'sum')
+                            or last in ('sum', 'max', 'min', 'mean', 'astype', 'copy', 'any', 'all')):
+                        return False
+                    if last in ('choice', 'normal', 'laplace', 'shuffle', 'permutation', 'multinomial', 'seed', 'random', 'rand', 'randn'):
+                        return False
+            names.add(s_.targets[0].id)
+        return True
+    if not st.orelse or not arm(st.body) or not arm(st.orelse):
+        return None
+    return names or None
+
+
 def is_basic_slice(sl):
     if isinstance(sl, ast.Slice):
         return True
@@ -769,7 +798,12 @@ class Taint:
             self.rets[-1] = join(self.rets[-1], v)
         elif isinstance(st, ast.If):
             t = self.ev(st.test, env, mod)
-            if not self.is_bounded_flag(st.test, env):
+            implicit = None
+            if t.anyt() and not self.is_bounded_flag(st.test, env):
+                # a branch whose arms only BIND local names to call-free values (an if / elif / else choosing how one quantity is computed): the
+                # choice is a dependence of those names on the tested data - they become private - and nothing else observable happens
+                implicit = pure_binding_arms(st)
+            if not self.is_bounded_flag(st.test, env) and implicit is None:
                 self.sink(t, st.test, mod, 'private data decides a branch')
             e1, e2 = copy.copy(env), copy.copy(env)
             self.block(st.body, e1, mod)
@@ -781,6 +815,10 @@ class Taint:
             self.block(st.orelse, e2, mod)
             env.clear()
             env.update(env_join(e1, e2))
+            if implicit:
+                for nm in implicit:
+                    cur = env.get(nm)
+                    env[nm] = join(cur, AV(True, False, why=t.reason())) if cur is not None else AV(True, False, why=t.reason())
         elif isinstance(st, (ast.For, ast.While)):
             for _ in range(8):
                 before = dict(env)
